@@ -22,16 +22,21 @@ from ..refs import sortref as sr
 ID = 'C05'
 LEVEL = 'model_checking'
 ENGINE = 'E2 small-scope enumeration against an independent stable reference sort'
-RULE = ('every table of each family (single key + id column; compound key; key=None lexical with and without id '
-        'column; ragged rows: key cell missing, surplus cells, empty rows) x key spellings x the complete strategy '
-        'cross product reverse x buffersize {None,1..n+1} (as argument and via petl.config.sort_buffersize) x cache '
-        'x tempdir {default, explicit; chunked strategies} x passes 1..3 of one view; mergesort: every assignment of '
-        'the rows of every table to 2 (thorough: 3) parts x header variants {same, extra field, permuted, renamed '
-        'non-key field} x key {field, None} x reverse x presorted x buffersize {None,1,2} x cache x 2 passes; '
-        'issorted on every table x key x reverse x strict and on every default sort output.  states = distinct '
-        '(table, key, strategy) points; transitions = passes over a real view; a state is non-trivial when the '
-        'table has >= 2 rows and sorting must move a row or must keep two equal-key rows in input order '
-        '(mergesort: >= 2 non-empty parts and the merge must interleave parts or break a cross-part tie)')
+RULE = ('every table of each family (single key + id column with ids DEscending, so that a merge comparing whole '
+        'rows on key ties is visible; compound key + ascending id; key=None lexical with and without id column, '
+        'the latter with equal cells of different type; ragged rows: key cell missing, surplus cells, empty rows) x '
+        'key spellings x the strategy cross product: full = reverse x buffersize {None,1..n+1} given as argument '
+        'and via petl.config.sort_buffersize x cache x tempdir {default; explicit when chunked}; core = reverse x '
+        'buffersize {None,1..n+1} x cache; lite (extra key spellings) = reverse x buffersize {None,1,n}; every '
+        'view is iterated 3 times (2 with cache=False).  mergesort: every assignment of the rows of every table to '
+        '2 (thorough: 3) parts x header variants {same, extra field, permuted, renamed non-key field} x key '
+        '{field, None, index when headers are equal} x reverse x {presorted, not presorted x buffersize {None,1} x '
+        'cache} x 2 passes (+ missing= / header= forms in thorough), against the reference sort(cat()) and the '
+        'real sort(cat()).  issorted on every table (>=1 row) x key x reverse x strict and on every default sort '
+        'output.  states = distinct (table, key, strategy) points; transitions = passes over a real view; a state '
+        'is non-trivial when the table has >= 2 rows and sorting must move a row or must keep two equal-key rows '
+        'in input order (mergesort: >= 2 non-empty parts and the merge must interleave parts or break a '
+        'cross-part tie)')
 ASSUMPTIONS = [
     'tables have <= 4 (thorough 5) rows; key cells range over K4/K6/K3 representatives chosen by the seed',
     'a missing key cell sorts as None (what the statement calls "missing key cells")',
@@ -487,12 +492,14 @@ def check_split(acc, famname, fam, rows, assign):
                 cfgs.append((keyname, rev, False, None, True, '~', None))
                 cfgs.append((keyname, rev, False, 1, True, None, tuple(reversed(sr.cat(raw)[0]))))
                 cfgs.append((keyname, rev, False, None, True, None, tuple(sr.cat(raw)[0]) + ('zz',)))
-        if hv == 'same' and isinstance(hdr, tuple):
-            # key by index is meaningful when every input has the same header
+        if hv == 'same':
+            # key by index: only when every input has the same header (mergesort documents field names)
+            k0 = fam['keys'][0]
+            ikey = hdr.index(k0) if isinstance(k0, str) else tuple(hdr.index(f) for f in k0)
             for rev in (False, True):
-                cfgs.append((list(hdr).index(fam['keys'][0]) if isinstance(fam['keys'][0], str) else
-                             tuple(hdr.index(f) for f in fam['keys'][0]), rev, False, None, True, None, None))
+                cfgs.append((ikey, rev, False, None, True, None, None))
         sortcats = {}
+        nontriv = {}
         for (key, rev, pres, bs, cache, missing, header) in cfgs:
             if pres and key is None and not same_order:
                 continue   # "presorted lexically" is ambiguous when column orders differ
@@ -503,9 +510,11 @@ def check_split(acc, famname, fam, rows, assign):
             else:
                 parts = raw
             acc.states += 1
-            if _merge_nontrivial(parts, key, rev):
-                acc.nontrivial += 1
             sck = (repr(key), rev, pres, missing, header)
+            if sck not in nontriv:
+                nontriv[sck] = _merge_nontrivial(parts, key, rev)
+            if nontriv[sck]:
+                acc.nontrivial += 1
             if sck not in sortcats:
                 sortcats[sck] = run_sort_cat(parts, key, rev, missing, header)
                 acc.transitions += 1
